@@ -782,26 +782,26 @@ def prop_shape(case):
             got = float(mat[a, j])
             base = 1e-12 * abs(float(A))
             u = (x - x0) / fw
-            if not skew or abs(b) <= mp.mpf("1e-8") * (1 - mp.mpf("1e-6")):
+            def gauss_interval():
                 vals = [O.shape_gaussian(xx, A, x0, fw) for xx in (x - dx, x, x + dx)]
                 if x - dx <= x0 <= x + dx:
                     vals.append(A)
-                lo, hi = float(min(vals)), float(max(vals))
+                return float(min(vals)), float(max(vals))
+
+            if not skew:
+                lo, hi = gauss_interval()
                 if abs(u) <= mp.mpf("1e-9"):
                     clause = "shape.amplitude_at_location"
                 elif abs(abs(u) - mp.mpf("0.5")) <= mp.mpf("1e-9"):
                     clause = "shape.half_maximum"
-                    hm = float(A) / 2
+                    hm = float(A) / 2  # stated directly: half the amplitude at +-FWHM/2
                     lo, hi = min(lo, hm), max(hi, hm)
-                    check(abs(float(vals[1]) - hm) <= 1e-7 * abs(hm), "shape.selfcheck", "oracle half maximum")  # oracle sanity
+                    lo, hi = max(lo, hm - 1e-8 * abs(hm)), min(hi, hm + 1e-8 * abs(hm))
                 else:
-                    clause = "shape.gaussian_formula" if not skew else "shape.skew_continuity"
+                    clause = "shape.gaussian_formula"
                 check(lo - base <= got <= hi + base, clause,
                       lambda: f"{sh} x={float(x)!r} (axis {lam!r}): code {got!r} admissible [{lo!r}, {hi!r}]")
                 continue
-            if abs(b) <= mp.mpf("1.000001e-8"):
-                # np.allclose decides at 1e-8: either branch is within the continuity bound; checked below
-                pass
             th = [O.skew_theta(xx, x0, fw, b) for xx in (x - dx, x, x + dx)]
             dth = 4 * EPS * (1 + abs(th[1] - 1))
             tlo, thi = min(th) - dth, max(th) + dth
@@ -811,11 +811,15 @@ def prop_shape(case):
             lo, hi = float(min(vals)), float(max(vals))
             sides.add("neg" if thi <= 0 else ("pos" if tlo > 0 else "edge"))
             if abs(b) <= mp.mpf("1e-6"):
+                # continuity: close to the Gaussian limit, and on one of the two documented formulae (an implementation
+                # may switch to the limit for tiny |b|; where it switches is not part of the statement)
                 g0 = float(O.shape_gaussian(x, A, x0, fw))
                 check(abs(got - g0) <= 1e-6 * abs(float(A)) + base, "shape.skew_continuity",
                       lambda: f"{sh} x={float(x)!r}: skewed {got!r} gaussian limit {g0!r}")
-                if abs(b) <= mp.mpf("1.000001e-8"):
-                    continue
+                glo, ghi = gauss_interval()
+                check(lo - base <= got <= hi + base or glo - base <= got <= ghi + base, "shape.skew_continuity",
+                      lambda: f"{sh} x={float(x)!r}: code {got!r} neither skewed formula [{lo!r}, {hi!r}] nor gaussian limit [{glo!r}, {ghi!r}]")
+                continue
             if thi <= 0:
                 clause = "shape.skewed_zero_branch"
             elif abs(u) <= mp.mpf("1e-9"):
